@@ -6,17 +6,17 @@ from checks import tracker_common as tc
 MANIFEST = dict(level="model_checking", design="4 (C06)",
     technique="PlusCal/TLA+ spec (Batch.tla) of the predict loop, store workers, voting threads, busy monitor and bounded result channel model-checked for deadlock, termination and one-result-per-scene; hook traces of the real batch trackers under random delays validated against it by TLC; R1 behaviours replayed through the batch API against the same Tracker spec as the simple trackers",
     text="TLC explores every interleaving of the client/predict loop, the shard workers and the voting threads of the protocol model (labels = hook sites): no deadlock and termination under weak fairness with the proviso (results of a batch retrieved before the next is submitted), exactly one result per scene per batch, monitor never negative, predict never overlaps voters of an earlier batch; without the proviso the model must deadlock (non-vacuity). Real BatchSort / BatchVisualSort runs (distance_shards, voting_shards in 1..4, seeded random delays at every hook, watchdog) are recorded at the hook sites and each trace is validated by TLC against BatchTrace (every invariant at every step). Refinement of the simple trackers: the TLC-enumerated R1 behaviours (single- and multi-scene batches) are replayed through the batch API and must give, per scene, the records the Tracker specification computes - the same specification the simple trackers are replayed against - up to renaming of ids.",
-    note="The protocol model abstracts the tracking decision (one detection per scene per batch, first batch adds, later batches merge); grouping equality is decided by the R1 replay. Client retrieving from another thread is exercised on the real code only (recorded run must complete; not modelled).")
+    note="The protocol model abstracts the tracking decision (one detection per scene per batch, first batch adds, later batches merge); grouping equality is decided by the R1 replay. Both halves of the proviso are modelled: sequential retrieval by the client, and a second thread retrieving every batch (half of the recorded traces use it, with slow retrieval and the next batch submitted at once).")
 LEVEL = MANIFEST["level"]
 B = SPEC / "batch"
 RULE = ("protocol traces: one per (seed, kind, ns, nv, batches); non-trivial = >= 2 scenes in a batch and >= 2 voters and a "
         "completion order different from dispatch order; R1 replays: behaviours with multi-scene batches; distinct by seed / by construction")
 
 
-def mc(chk, name, consts_b, ns, nv, proviso, props=True, timeout=600):
+def mc(chk, name, consts_b, ns, nv, proviso, props=True, timeout=600, getter=False):
     cfg = chk.workdir / f"{name}.cfg"
     lines = ["CONSTANTS", f" NS = {ns}", f" NV = {nv}", f" Batches <- {consts_b}", f" Proviso = {'TRUE' if proviso else 'FALSE'}",
-             " Slack = 0", "SPECIFICATION FairSpec", "INVARIANTS OneResultPerScene AllDelivered MonitorOK NoOverlap"]
+             f" Getter = {'TRUE' if getter else 'FALSE'}", " Slack = 0", "SPECIFICATION FairSpec", "INVARIANTS OneResultPerScene AllDelivered MonitorOK NoOverlap"]
     if props:
         lines.append("PROPERTY Termination2")
     lines.append("CHECK_DEADLOCK TRUE")
@@ -48,6 +48,11 @@ def run(chk):
     chk.add_tlc("Batch B22 NS=2 NV=2 proviso", r)
     r = mc(chk, "mc22-noproviso", "B22", 2, 2, False, props=False)
     chk.witness("without_proviso_model_deadlocks", "deadlock" in r.violated)
+    # results retrieved from another thread instead (the other half of the proviso): no deadlock, termination
+    gb, gns = ("B212", 1) if quick else ("B22", 2)
+    r = mc(chk, "mc-getter", gb, gns, 2, False, getter=True, timeout=1800)
+    vlib.tlc_must_pass(r, "Batch with a retrieving thread")
+    chk.add_tlc(f"Batch {gb} NS={gns} NV=2 retrieving thread", r)
     if not quick:
         for nm, b, ns, nv in (("mc212", "B212", 2, 2), ("mc1x4", "B1x4", 3, 4), ("mc22-31", "B22", 3, 1), ("mc22-13", "B22", 1, 3)):
             r = mc(chk, nm, b, ns, nv, True, timeout=1500)
@@ -62,7 +67,7 @@ def run(chk):
         kind = ("batchsort", "batchvisual")[i % 2]
         trace = chk.workdir / f"batch-{i}.ndjson"
         p = vlib.sh([str(vlib.VH), "record", "batch", "--kind", kind, "--seed", str(chk.seed * 100000 + i), "--batches", str(rnd.choice((2, 3))),
-                     "--scenes", str(rnd.choice((2, 3))), "--delay-us", str(rnd.choice((100, 500, 1500))), "--out", str(trace)], timeout=200)
+                     "--scenes", str(rnd.choice((2, 3))), "--delay-us", str(rnd.choice((100, 500, 1500))), "--out", str(trace)] + (["--getter", "1"] if i % 4 >= 2 else []), timeout=200)
         if p.returncode != 0:
             vlib.tool_error("vh record batch failed: " + (p.stdout or "")[-1000:])
         jobs.append((i, trace, chk.workdir))
